@@ -2,8 +2,9 @@
 (* Rationals over plain TLC integers, normalised <<num, den>> with den > 0.   *)
 (* Only for models whose numbers stay far below 2^31 (TLC reports overflow).  *)
 EXTENDS Integers
-RECURSIVE GCD(_,_)
-GCD(a, b) == IF b = 0 THEN (IF a < 0 THEN 0 - a ELSE a) ELSE GCD(b, a % b)
+RECURSIVE GCDp(_,_)
+GCDp(a, b) == IF b = 0 THEN a ELSE GCDp(b, a % b)                      \* a, b >= 0
+GCD(a, b) == GCDp(IF a < 0 THEN 0 - a ELSE a, IF b < 0 THEN 0 - b ELSE b)
 QN(p, q) == LET g == GCD(p, q)
                 s == IF q < 0 THEN -1 ELSE 1
             IN IF p = 0 THEN <<0, 1>> ELSE <<s * (p \div g), s * (q \div g)>>
